@@ -1014,3 +1014,45 @@ Proof.
   intros Htc Hq. unfold drain. rewrite Htc. cbn [Z.eqb andb Z.ltb Z.compare].
   replace (r_min (rs_reg st) <=? zn (length (r_queue (rs_reg st)))) with false by (symmetry; apply Z.leb_gt; exact Hq). reflexivity.
 Qed.
+
+(* ---------- C19: a top-up by SyncState never lifts a table above the capacity ---------- *)
+Lemma div_ceil_cap pc mx : 0 < mx -> 0 < pc -> pc / ((pc + mx - 1) / mx) <= mx.
+Proof.
+  intros Hm Hp. set (rt := (pc + mx - 1) / mx).
+  assert (Hrt : 0 < rt) by (unfold rt; apply Z.div_str_pos; lia).
+  assert (Hge : pc <= rt * mx).
+  { unfold rt. pose proof (Z.div_mod (pc + mx - 1) mx ltac:(lia)) as Hd. pose proof (Z.mod_pos_bound (pc + mx - 1) mx Hm) as Hb. nia. }
+  apply Z.div_le_upper_bound; [exact Hrt|]. nia.
+Qed.
+
+Theorem sync_topup_within_capacity st id out t0 :
+  find_table id (r_tables (rs_reg st)) = Some t0 -> 0 < r_max (rs_reg st) -> 0 < r_pc (rs_reg st) - out ->
+  let res := sync_state st id out in
+  snd (fst res) <> [] ->
+  forall t1, find_table id (r_tables (rs_reg (fst (fst (fst res))))) = Some t1 -> t_pc t1 <= r_max (rs_reg st).
+Proof.
+  intros Hf Hmax Hpc res Hh t1 Ht1. unfold res, sync_state in *. rewrite Hf in *.
+  set (r := rs_reg st) in *.
+  set (r1 := set_tables (set_pc r (r_pc r - out)) (map_table id (fun t => mkT (t_id t) (t_required t) (t_pc t - out)) (r_tables r))) in *.
+  destruct ((r_status r1 =? 2) && (r_pc r1 <=? r_max r1) && (required_tables r1 <? r_tc r1)); [cbn in Hh; contradiction|].
+  destruct (required_tables r1 =? 0); [cbn in Hh; contradiction|].
+  destruct ((t_pc t0 - out) * required_tables r1 <? r_pc r1) eqn:Elow.
+  2: { destruct (r_pc r1 <? (t_pc t0 - out) * required_tables r1); [|cbn in Hh; contradiction].
+       destruct (release_loop _ _ _ _ _). cbn in Hh. contradiction. }
+  destruct ((2 <=? low_water_count r1) && (required_tables r1 <? r_tc r1)); [cbn in Hh; contradiction|].
+  set (count := r_pc r1 / required_tables r1 - (t_pc t0 - out)) in *.
+  unfold take_queue in *. cbn [fst snd with_reg rs_reg set_tables set_queue r_tables r_queue] in *.
+  set (players := firstn (Z.to_nat count) (r_queue r1)) in *.
+  (* the synced table after elimination and top-up *)
+  assert (Hf1 : find_table id (r_tables r1) = Some (mkT (t_id t0) (t_required t0) (t_pc t0 - out))).
+  { unfold r1. cbn [set_tables r_tables]. rewrite find_map_table by reflexivity. rewrite Hf. reflexivity. }
+  rewrite find_map_table in Ht1 by reflexivity. rewrite Hf1 in Ht1. cbn [option_map] in Ht1. injection Ht1 as <-. cbn [t_pc].
+  assert (Hk : zn (length players) <= count \/ count < 0).
+  { destruct (Z_lt_le_dec count 0) as [H|H]; [now right|left]. unfold players. rewrite firstn_length. unfold zn. lia. }
+  assert (Hcap : r_pc r1 / required_tables r1 <= r_max r).
+  { unfold required_tables. change (r_max r1) with (r_max r). change (r_pc r1) with (r_pc r - out). apply div_ceil_cap; assumption. }
+  destruct Hk as [Hk|Hk].
+  - unfold count in Hk. lia.
+  - (* a negative count hands out nobody *)
+    exfalso. apply Hh. unfold players. replace (Z.to_nat count) with 0%nat by lia. reflexivity.
+Qed.
